@@ -249,6 +249,141 @@ func readRaw(b *qnet.Buffer, k int) uint64 {
 	panic("bad kind")
 }
 
+func peekRaw(b *qnet.Buffer, k int) uint64 {
+	switch k {
+	case kBool:
+		return uint64(b2i(b.PeekBool()))
+	case kU8:
+		return uint64(b.PeekUint8())
+	case kI8:
+		return uint64(uint8(b.PeekInt8()))
+	case kU16:
+		return uint64(b.PeekUint16())
+	case kI16:
+		return uint64(uint16(b.PeekInt16()))
+	case kU32:
+		return uint64(b.PeekUint32())
+	case kI32:
+		return uint64(uint32(b.PeekInt32()))
+	case kU64:
+		return b.PeekUint64()
+	case kI64:
+		return uint64(b.PeekInt64())
+	case kUint:
+		return uint64(b.PeekUint())
+	case kInt:
+		if ws == 4 {
+			return uint64(uint32(b.PeekInt()))
+		}
+		return uint64(b.PeekInt())
+	case kF32:
+		return uint64(math.Float32bits(b.PeekFloat32()))
+	case kF64:
+		return math.Float64bits(b.PeekFloat64())
+	}
+	panic("bad kind")
+}
+
+// ---- exact lengths around powers of two ----------------------------------------------------
+// boundary(k): every kind is written, peeked and read with the buffer holding EXACTLY L unread
+// bytes for every L in [2^k-10, 2^k+10].  The buffer content is a fixed pseudo-random byte
+// string, so every expected value is the little-endian decoding of known bytes.
+// Returns 0 ok | 1 width (Len after a write) | 2 layout (bytes appended) | 3 read | 4 peek | 5 panic.
+
+func fillByte(i int) byte { return byte(uint32(i)*2654435761>>13) ^ byte(i) }
+
+func leValue(base []byte, pos, w int) uint64 {
+	var u uint64
+	for j := 0; j < w; j++ {
+		u |= uint64(base[pos+j]) << (8 * uint(j))
+	}
+	return u
+}
+
+// the value a typed read of kind k returns for raw little-endian bits u (as width-truncated bits)
+func viewRaw(k int, u uint64) uint64 {
+	if k == kBool {
+		if u != 0 {
+			return 1
+		}
+		return 0
+	}
+	return u
+}
+
+func boundary(k uint) (code int, at int64, checked int64) {
+	const win = 10
+	n := 1<<k + win + 16
+	base := make([]byte, n)
+	for i := range base {
+		base[i] = fillByte(i)
+	}
+	lo, hi := 1<<k-win, 1<<k+win
+	pn, _ := Catch(func() {
+		// writes and peeks at exact lengths (Truncate keeps the first L unread bytes)
+		var b qnet.Buffer
+		b.Buffer.Write(base)
+		for L := hi; L >= lo; L-- {
+			for kind := 0; kind < nKinds; kind++ {
+				w := widthOf(kind)
+				b.Truncate(L)
+				u := truncWord(kind, leValue(base, (L*7+kind)%16, 8))
+				switch w {
+				case 1:
+					u &= 0xff
+					if kind == kBool {
+						u &= 1
+					}
+				case 2:
+					u &= 0xffff
+				case 4:
+					u &= 0xffffffff
+				}
+				writeRaw(&b, kind, u)
+				checked++
+				if b.Len() != L+w {
+					code, at = 1, int64(L)
+					return
+				}
+				if tail := b.Bytes()[L:]; len(tail) != w || leValue(tail, 0, w) != u {
+					code, at = 2, int64(L)
+					return
+				}
+				b.Truncate(L)
+				want := viewRaw(kind, leValue(base, 0, w))
+				checked++
+				if got := peekRaw(&b, kind); got != want || b.Len() != L {
+					code, at = 4, int64(L)
+					return
+				}
+			}
+		}
+		// reads at exact lengths: for every kind and every phase, read down through the window
+		for kind := 0; kind < nKinds; kind++ {
+			w := widthOf(kind)
+			for r := 0; r < w; r++ {
+				start := hi + r
+				b.Reset()
+				b.Buffer.Write(base[:start])
+				for L := start; L >= lo && L >= w; L -= w {
+					pos := start - L
+					want := viewRaw(kind, leValue(base, pos, w))
+					got := readRaw(&b, kind)
+					checked++
+					if got != want || b.Len() != L-w {
+						code, at = 3, int64(L)
+						return
+					}
+				}
+			}
+		}
+	})
+	if pn {
+		code = 5
+	}
+	return
+}
+
 func truncWord(k int, u uint64) uint64 {
 	if (k == kUint || k == kInt) && ws == 4 {
 		return u & 0xffffffff
@@ -277,9 +412,13 @@ func deep(seed uint64, total int64) (code int, index int64, checked int64) {
 		for i := int64(0); i < n; i++ {
 			k := r.Intn(nKinds)
 			u := truncWord(k, rawValue(r, k))
+			if pk := peekRaw(&b, k); pk != u || int64(b.Len()) != expect {
+				code, index = 4, i
+				return
+			}
 			got := readRaw(&b, k)
 			expect -= int64(widthOf(k))
-			checked++
+			checked += 2
 			if got != u || int64(b.Len()) != expect {
 				code, index = 3, i
 				return
@@ -296,6 +435,10 @@ func deep(seed uint64, total int64) (code int, index int64, checked int64) {
 }
 
 func run(in Sx) Sx {
+	if in.Len() == 1 && in.At(0).At(0).AsInt() == 10 {
+		code, at, _ := boundary(uint(in.At(0).At(1).Int64()))
+		return List(Int(ws), List(List(Int(10), Int(int64(code)), Int(at))))
+	}
 	if in.Len() == 1 && in.At(0).At(0).AsInt() == 9 {
 		code, index, _ := deep(in.At(0).At(1).Uint64(), in.At(0).At(2).Int64())
 		return List(Int(ws), List(List(Int(9), Int(int64(code)), Int(index))))
@@ -568,7 +711,7 @@ func gen(a Args, out *Out) {
 		out.Count("deep-buffer runs")
 		in := List(List(Int(9), Uint(d.seed), Int(d.total)))
 		if code != 0 {
-			what := map[int]string{1: "width", 3: "readback", 5: "panic"}[code]
+			what := map[int]string{1: "width", 3: "readback", 4: "peek", 5: "panic"}[code]
 			out.Violation("C19/deep-buffer/"+what, "deep buffer ("+strconv.FormatInt(d.total, 10)+" bytes): "+what+" fails at value #"+strconv.FormatInt(index, 10),
 				List(in, List()))
 		}
@@ -577,6 +720,28 @@ func gen(a Args, out *Out) {
 		}
 	}
 	out.Note("deep-buffer sweep up to %d bytes in one buffer", deepTotal)
+	// every kind written / peeked / read at every exact length within 10 bytes of 2^k
+	kmax := uint(24)
+	if a.Thorough() {
+		kmax = 26
+	}
+	if ws == 4 {
+		kmax = 22
+	}
+	for k := uint(5); k <= kmax; k++ {
+		code, at, checked := boundary(k)
+		out.GoChecked += checked
+		out.Count("boundary runs")
+		in := List(List(Int(10), Int(int64(k))))
+		if code != 0 {
+			what := map[int]string{1: "width", 2: "layout", 3: "read", 4: "peek", 5: "panic"}[code]
+			out.Violation("C19/boundary/"+what, "buffer holding exactly "+strconv.FormatInt(at, 10)+" bytes (around 2^"+strconv.Itoa(int(k))+"): "+what+" fails", List(in, List()))
+		}
+		if k <= 12 {
+			out.Case("boundary", true, in, run(in))
+		}
+	}
+	out.Note("exact-length sweep: every kind at every length within 10 bytes of 2^k, k = 5..%d", kmax)
 	nvol := 20000
 	if a.Thorough() {
 		nvol = 400000
